@@ -28,7 +28,10 @@ UNEED = {ONot: 5, OAdd: 9, ODef: 12}
 
 ATOMS = ["a", "b2", "x_y", "12", "1.5", "2.", "1.0e-3", "2.5d+10", "3e5", "1.e+2", "arr(i+1)", "m(1, j-2)", "f(x, y+1)",
          "g()", "s%c", "s%arr(2)", "'a+b'", "\"x**2\"", "'it''s'", "h(-1)", "k(a.and.b)", "w(1:n-1)", "1_8",
-         "(/ 1, 2 /)", "[1, 2]", "q(1)(2:3)", "s%t(i)%u", "1.0_wp", "c('//')"]
+         "(/ 1, 2 /)", "[1, 2]", "q(1)(2:3)", "s%t(i)%u", "1.0_wp", "c('//')",
+         # bracketed groups with operators of every level inside (they must stay hidden from the operator split)
+         "[b + c]", "[a, b*c]", "[b ** c, d]", "[x .and. y, z // w]", "[p == q]", "(/ b - c, d / e /)", "[[u + v], [w]]",
+         "r(i:i)", "t(k+1:k+1, :)"]
 DOTS = [".true.", ".false."]
 
 
